@@ -11,8 +11,8 @@ import time
 
 VERIF = os.path.dirname(os.path.dirname(os.path.abspath(__file__)))
 REPO = os.path.realpath(os.environ.get("WSVERIF_REPO", "/repo"))
-EVIDENCE_DIR = os.path.join(VERIF, "evidence")
-OUT_DIR = os.path.join(VERIF, "out")
+EVIDENCE_DIR = os.environ.get("WSVERIF_EVIDENCE_DIR") or os.path.join(VERIF, "evidence")
+OUT_DIR = os.environ.get("WSVERIF_OUT_DIR") or os.path.join(VERIF, "out")
 KNOWN_FINDINGS = os.path.join(VERIF, "known_findings.json")
 PY = sys.executable
 
